@@ -35,6 +35,16 @@ WHAT = {
  "C12-r2-mut3": "WorkerLimit arm before BlockingExecution arm", "C13-r2-mut1": "one retry timer re-armed when it fires (interval counted from the start of the previous attempt)", "C13-r2-mut2": "worker exits when a run's context is dead after an execution",
  "C13-r2-mut3": "RetryInterval <= 0 skips the wait and the context re-check", "C15-r2-mut1": "failed reschedule puts the fired job back unchanged (fire time taken twice)", "C15-r2-mut2": "an interrupt clears the back-off deadline",
  "C15-r2-mut3": "ResumeJob clears the suspended flag before the Remove that may fail", "C16-r2-mut1": "CurlJob stops releasing responses of unknown length", "C16-r2-mut2": "ShellJob output buffers shared between executions", "C16-r2-mut3": "CurlJob binds the context once",
+ "C02-r2-mut1": "year node lower bound 1970 (west of Greenwich the wall clock shows 1969 at prev ≈ 0)", "C02-r2-mut2": "lastDayOfMonth as a table with `year%4` as the only leap rule",
+ "C02-r2-mut3": "CronTrigger remembers that it has expired (sticky flag)", "C06-r2-mut1": "`wall = next` in the DST loop (hang when the next reading is in a gap and prev in the other season)",
+ "C06-r2-mut2": "sticky expired flag in the trigger (impure)", "C06-r2-mut3": "UTC early-out at 2262 + wildcard fast path in isValid (negative fire time east of Greenwich)",
+ "C07-r2-mut1": "both-day-fields check done on parsed values (`L`, `L-n` have none)", "C07-r2-mut2": "year bound of the parser replaced by the engine limit 2261 (`2024-2300` rejected)",
+ "C07-r2-mut3": "whitespace fast path: `\\s+` replacement only when a double space occurs", "C14-r2-mut1": "`fires` compares the clock (h:m:s) only (zones that skipped a whole day)",
+ "C14-r2-mut2": "skip the rest of the missing HOUR after a rejected reading (gaps that do not end on the hour)", "C14-r2-mut3": "`makeDateTime` in time.Local (process zone with a midnight gap)",
+ "C14-r2-mut4": "search continues from the second AFTER a rejected reading (first second after the gap lost)", "C17-r2-mut1": "in-flight counter leaks on a refused call",
+ "C17-r2-mut2": "early return for an ended context between taking the gate and the deferred release", "C17-r2-mut3": "gate also released when the execution's context ends (AfterFunc)",
+ "C18-r2-mut1": "message used as format string", "C18-r2-mut2": "one child log.Logger per level, mutex removed (five locks in front of one writer)",
+ "C18-r2-mut3": "handler threshold resolved once at construction (LevelVar changed later)",
  "C18-mut1": "lock released before Output", "C18-mut2": "message used as format string", "C18-mut3": "slog threshold cached at construction with an off-by-one probe",
 }
 rows = []
